@@ -518,6 +518,20 @@ func (b *broker) syncUnsubscribe(subscriber *wamp.Session, msg *wamp.Unsubscribe
 		return
 	}
 
+	// A session that is not subscribed has nothing to unsubscribe. Do not
+	// answer UNSUBSCRIBED or announce on_unsubscribe, and do not delete a
+	// subscription that only exists to keep event history.
+	if _, ok = sub.subscribers[subscriber]; !ok {
+		b.trySend(subscriber, &wamp.Error{
+			Type:    msg.MessageType(),
+			Request: msg.Request,
+			Error:   wamp.ErrNoSuchSubscription,
+			Details: wamp.Dict{},
+		})
+		b.log.Println("Error unsubscribing: no such subscription for sender:", subID)
+		return
+	}
+
 	// Remove subscribed session from subscription.
 	delete(sub.subscribers, subscriber)
 
